@@ -105,7 +105,7 @@ Theorem insert_reads_back : forall g bs id, Forall unit_wf (flat bs) ->
   | Some u => match abs g id with Some _ => Some (uvals (g_store g) u) | None => None end
   | None => abs g id
   end.
-Proof. intros g bs id W. split; [apply store_insert | apply insert_reads_back_lemma; exact W]. Qed.
+Proof. exact insert_reads_back_full. Qed.
 Print Assumptions insert_reads_back.
 
 (* ---------------------------------------------------------------------------------------- *)
@@ -158,11 +158,7 @@ Theorem independent_active_rule : forall g, ginv g ->
   (forall g' bs, extract_active g = (g', bs) ->
      Forall2 (extracted g (g_store g')) (active_ids g) bs /\
      NoDup (flat_map branch_addrs bs) /\ forall id, abs g' id = abs g id).
-Proof.
-  intros g G. split; [exact (active_ids_rule1 g)|]. split; [exact (active_ids_rule2 g G)|].
-  intros g' bs X. destruct (extract_active_spec g g' bs G X) as [S [W [E [F N]]]].
-  split; [exact F|]. split; [exact N|]. intro id. rewrite S. apply abs_ext; assumption.
-Qed.
+Proof. exact independent_active_rule_lemma. Qed.
 Print Assumptions independent_active_rule.
 
 (** On coherent states (a moving point mass induces a velocity of its composite object: the
